@@ -78,6 +78,7 @@ func (o *Obligation) smtBoth(footer []string) (string, string) {
 		return o.smt(footer), ""
 	}
 	as := append([]*Term{}, o.ex.Assumes[:o.NAssume]...)
+	as = append(as, o.Extra...)
 	as = append(as, o.Guard)
 	hdr := []string{"(set-logic ALL)", "; obligation " + o.Name, "; " + o.Note, "; " + o.Pos.String()}
 	return SMTQuery(as, o.Goal, hdr, footer), qfText(as, o.Goal, hdr, footer)
